@@ -95,3 +95,7 @@ Fixpoint stmt_names (s : statement) : list string :=
 (* [f] renames none of the names the body itself uses *)
 Definition fixes_names (f : string -> string) (body : statement) : Prop :=
   forall x, In x (stmt_names body) -> f x = x.
+
+(* [f] identifies no two names of [l] *)
+Definition inj_on (f : string -> string) (l : list string) : Prop :=
+  forall x y, In x l -> In y l -> f x = f y -> x = y.
